@@ -45,6 +45,22 @@ CHECKS = {
    note=TB + "Hypotheses as for C02; 'another message' is reflected as another value of H(m) (hash collisions excluded by hypothesis).",
    technique="Coq proof (invariant: collected entries are valid, distinct, in range) + differential correspondence",
    ref="5/C03"),
+ "C07": dict(
+   text="Coq theorems over the Gallina model of the content-building stages (Models/Stages.v: padOrTrim, genSysRandom, "
+        "genUserRandom, genQueryResult, the strip in recoverSign, choseSubmitter): for every last randomness < 2^256 the signed "
+        "system-randomness content is exactly be_enc 32 r ++ submitter whatever the number of leading zero bytes; longer values "
+        "keep their low 32 bytes; strip inverts content-building for the three kinds; the submitter index is (r mod 2^64) mod n, "
+        "in range, a member of the list. Being Gallina functions of the event fields, the model has no member-, history- or "
+        "schedule-dependence; the correspondence run checks that the real stages equal it on histories of calls with lengths "
+        "going up and down, on ONE shared event object evaluated by all non-submitting members through the real handleQuery "
+        "sequentially and concurrently (event numbers must stay unmodified), and that selector evaluation (ajson / xmlquery) is "
+        "repeatable and goroutine-independent on grammar-generated documents.",
+   note=TB + "partial: dataParse delegates to third-party ajson / xmlquery; it is opaque in the model and its determinism is "
+        "TESTED (repeated + concurrent evaluation), not proved. The submitter's own path (recover, strip on the real node) is "
+        "exercised under C01.",
+   technique="Coq proof (big-endian codec lemmas, list algebra) + differential correspondence incl. shared-object and "
+             "concurrent evaluation",
+   ref="5/C07"),
  "C13": dict(
    text="Coq theorems over the Gallina model of DosNode.queryLoop (Models/QueryLoop.v): for EVERY event sequence (arrivals, "
         "registrations, cancellations, watchdog sweeps, any interleaving, any number of requests) the shares handed to a "
